@@ -51,6 +51,13 @@ def cases(ctx):
         for _ in range(rng.randrange(1, 25)):
             m = rng.choice(names)
             ins.append([m, codec.rand_values(rng, isa.TABLE[flav][m][1])])
+        if rng.random() < 0.15:
+            # a printed subroutine that names every register of a bank (printed text contains no literal that would need a
+            # scratch register, so it must parse however many registers it names)
+            bank = rng.choice("RRCQM")
+            extra = [["set", [[bank, i], rng.choice(codec.INT32_EDGE)]] for i in range(16)]
+            rng.shuffle(extra)
+            ins = ins[:len(ins) // 2] + extra + ins[len(ins) // 2:]
         yield {"kind": "subroutine", "flavour": flav, "instrs": ins}
 
 
